@@ -28,6 +28,17 @@ func Record(sut SUT, seed int64, traces, length int, out string) (events int, er
 		events++
 		for i := 0; i < length; i++ {
 			s := sut.RandomStimulus(r)
+			OnHang = func(Ev) { // the call does not return: the trace ends with the hang as its observation
+				line := Ev{}
+				for k, v := range s {
+					line[k] = v
+				}
+				line["res"] = HangObs()
+				_ = enc.Encode(line)
+				_ = w.Flush()
+				_ = f.Close()
+				os.Exit(0)
+			}
 			res, st, panicked := SafeApply(sut, s)
 			line := Ev{}
 			for k, v := range s {
